@@ -206,6 +206,10 @@ func ValidatePattern(name, val, p string) error {
 // "{6ba7b810-9dad-11d1-80b4-00c04fd430c8}",
 // "urn:uuid:6ba7b810-9dad-11d1-80b4-00c04fd430c8"
 func validateUUID(uuid string) error {
+	if len(uuid) == 38 && (uuid[0] != '{' || uuid[37] != '}') {
+		// googleuuid.Parse drops the first and last characters without looking at them
+		return fmt.Errorf("uuid: %s: invalid braces", uuid)
+	}
 	u, err := googleuuid.Parse(uuid)
 	if err != nil {
 		return fmt.Errorf("uuid: %s: %w", uuid, err)
